@@ -772,6 +772,16 @@ func gen() {
 		panic("backend " + backend + " returns shape " + p.Shape + " for a waiting key: extend the model")
 	}
 	pi, pm, pf := session.VerifPollConstants()
+	// does LookupWaitingTunnel delete the key of a record it finds expired?  (backend that keeps the key: ttl dropped)
+	lz := lazyStore{memory.New(ctx)}
+	lt := tunnel.NewRoutingTable(lz, 40*time.Millisecond)
+	must(lt.RegisterWaitingTunnel(ctx, &tunnel.WaitingState{TunnelID: "D"}))
+	time.Sleep(70 * time.Millisecond)
+	if _, err := lt.LookupWaitingTunnel(ctx, "D"); err != tunnel.ErrExpired {
+		panic(fmt.Sprintf("lookup of an expired record kept by the backend answered %v", err))
+	}
+	_, kerr := lz.Get(lt.VerifMakeKey("D"))
+	deletes := kerr != nil
 	fmt.Println("(* generated by verif_c09 gen from /repo's working tree — do not edit *)")
 	fmt.Println("From Coq Require Import NArith List. Import ListNotations. Open Scope N_scope.")
 	fmt.Printf("Definition WaitPrefix : list N := %s. (* %s *)\n", nlist(rt.VerifMakeKey("")), rt.VerifMakeKey(""))
@@ -787,6 +797,7 @@ func gen() {
 	fmt.Printf("Definition ShapeIdentRedis : bool := %v.\n", shape("redis"))
 	fmt.Printf("Definition ShapeIdentHybridShared : bool := %v.\n", shape("hybrid"))
 	fmt.Printf("Definition ShapeIdentHybridLocal : bool := %v.\n", shape("hybridone"))
+	fmt.Printf("Definition LookupDeletesExpired : bool := %v.\n", deletes)
 	fmt.Printf("Definition PollInitialNs : N := %d.\nDefinition PollMaxNs : N := %d.\nDefinition PollFactor : N := %d.\n", int64(pi), int64(pm), pf)
 }
 
